@@ -15,7 +15,7 @@ MaxMembersDef == atoi(EnvOr("VERIF_MAXMEMBERS", "2"))
 DefValsWide == IF EnvOr("VERIF_NODEF", "0") = "1" THEN {} ELSE {-1, 0, 5, 10, 15}
 FreshPoolDef == {1, 3}
 AutoNamesDef == {"auto1", "auto2"}
-DefValsDef == {-1, 5, 15}
+DefValsDef == {-1, 0, 5, 10, 15}
 DefValsSmall == {-1, 5}
 StepPoolDef == {"s", "zz"}
 MaxHDef == atoi(EnvOr("VERIF_MAXH", "4"))
